@@ -76,6 +76,14 @@ func (e *Engine) opBatch(c *cursor) *Violation {
 			// only legal if every related match carries exactly the removed relation: rem ⊆ all guarantees that
 		}
 	}
+	if e.P.NoTargetDeath && !e.P.TargetsOnly && op.Variant == "Batch.RemoveEntities" {
+		for _, me := range matched {
+			if e.M.Targets[me.H] {
+				e.St.Skipped++
+				return nil
+			}
+		}
+	}
 	if e.P.TargetsOnly {
 		if op.Variant == "Batch.RemoveEntities" {
 			for _, me := range matched {
